@@ -48,7 +48,7 @@ def floors(tier):
     return {"distinct_nontrivial": 10, "states": 100, "count:schedules": 500, "count:digests": 60}
 
 
-CONFIGS = ["plain", "screening", "adaptive", "tdep", "callable_currents", "hole_terminals", "four_terminals"]
+CONFIGS = ["plain", "screening", "adaptive", "tdep", "callable_currents", "hole_terminals", "four_terminals", "seeded_twice"]
 KERNELS = ["A_induced", "sq2d", "sq3d", "eu2d", "eu3d", "bs1d", "bs2dz", "bs2dv"]
 
 
@@ -113,6 +113,9 @@ def run_sweep(case):
             res.states.add(f"{case['config']}/{hs}/{loc}/{k}")
             res.transitions += 1
             res.count("digests")
+    rep = sorted(k for k, v in digests.items() if "repeat-differs" in v)
+    if rep:
+        res.violate("repeated-run-in-one-process-differs", config=case["config"], detail={"where": [list(k) for k in rep[:6]]})
     # memory-only runs expose less: compare within kind
     for kind in ("file", "mem"):
         sub = {k: v for k, v in digests.items() if v.startswith(kind)}
